@@ -71,9 +71,13 @@ func runClientNet(c *Case) ([]Obs, any) {
 
 	interrupt := make(chan interface{})
 	runDone := make(chan error, 1)
-	var stopOnce sync.Once
-	stop := func() { stopOnce.Do(func() { close(interrupt) }) }
-	defer stop()
+	stopOnce := new(sync.Once)
+	stopped := false
+	stop := func() {
+		ch := interrupt
+		stopOnce.Do(func() { close(ch); stopped = true })
+	}
+	defer func() { stop() }()
 
 	inbox := make(chan cnMsg, 1000)
 	var conns []net.Conn
@@ -104,7 +108,16 @@ func runClientNet(c *Case) ([]Obs, any) {
 		o := guard(func() Obs {
 			switch op.Name {
 			case "run":
-				go func() { runDone <- rc.Run(ctx, interrupt) }()
+				if stopped {
+					// Run again on the SAME client object after an earlier Run was stopped and has returned
+					select {
+					case <-runDone:
+					default:
+					}
+					interrupt, stopOnce, stopped = make(chan interface{}), new(sync.Once), false
+				}
+				ich := interrupt
+				go func() { runDone <- rc.Run(ctx, ich) }()
 				return Obs{OK}
 			case "srv_accept": // variant (-1: do not send an accept yet), wait ms
 				type acc struct {
